@@ -246,6 +246,10 @@ func (session *PubSession) dispose(err error) error {
 	session.disposeOnce.Do(func() {
 		Log.Infof("[%s] lifecycle dispose gb28181 PubSession. err=%+v", session.UniqueKey(), err)
 		if session.isTcpFlag {
+			// 关闭监听，使得RunLoop中的Accept退出，否则session的RunLoop永远不会结束，端口也一直被占用
+			if session.listener != nil {
+				_ = session.listener.Close()
+			}
 			if session.tcpConn == nil {
 				retErr = base.ErrSessionNotStarted
 				return
